@@ -2021,6 +2021,27 @@ unit(name="SrcQGrams", props="property C19", file="src/alphabets/mod.rs", dialec
                      theorem="RbV.Thm.GenSrcQGrams.revQgrams_eq_model")])
 
 
+unit(name="SrcQGramIndex", props="property C19", file="src/data_structures/qgram_index.rs", dialect="cf",
+     # `T` (the text), `Alphabet`, `RankTransform` are abstract types here; what `with_max_count` needs from them are the
+     # abstract functions below: the rank transform of the alphabet, its bit width, the q-gram codes of the text
+     # (`ranks.qgrams(q, text)`: constructor + iteration, translated and proved in SrcQGrams) and `utils::prescan` with
+     # `|a, b| a + b` (translated and proved for C04; here `prescanAdd`, which may panic on overflow)
+     generics={"T": "τ", "Alphabet": "αβ", "RankTransform": "ρ"},
+     structs={"QGramIndex": [("q", "u32"), ("address", "Vec<usize>"), ("pos", "Vec<usize>"), ("ranks", "RankTransform")]},
+     abstract_fns={"RankTransform::new": dict(lean="rankNew", args=["Alphabet"], ret="RankTransform"),
+                   "ranks.get_width": dict(lean="getWidth", args=[], ret="usize"),
+                   "ranks.qgrams": dict(lean="qgramsOf", args=["u32", "T"], ret="Iter<usize>")},
+     functions=[dict(name="QGramIndex::with_max_count", lean="withMaxCount",
+                     header="pub fn with_max_count<'a, T, I>(q: u32, text: T, alphabet: &Alphabet, max_count: usize) -> Self "
+                            "where I: Iterator<Item = &'a u8> + ExactSizeIterator + Clone, "
+                            "T: IntoIterator<Item = &'a u8, IntoIter = I> + Sized,",
+                     params=[("q", "u32"), ("text", "T"), ("alphabet", "&Alphabet"), ("max_count", "usize")],
+                     ret="QGramIndex", locals={"address": "Vec<usize>", "pos": "Vec<usize>", "offset": "Vec<usize>"},
+                     mut_calls={"utils::prescan": dict(lean="prescanAdd", args=["&mut Vec<usize>", "usize", "closure:|a,b|a+b"],
+                                                       ret="Vec<usize>")},
+                     theorem="RbV.Thm.GenSrcQGramIndex.withMaxCount_eq_model")])
+
+
 # ================================================================================================== self-test
 
 SELFTEST_RS = r"""
